@@ -1,5 +1,6 @@
 import Amqp.Codec
 import Amqp.CodecSpec
+import Amqp.Lazy
 import Driver.Frame
 
 namespace Driver.Codec
@@ -146,6 +147,11 @@ def step (ws : List String) : Option String :=
     match Amqp.CodecSpec.sEnc ch val with
     | some bs => some (if bs.isEmpty then "-" else hexs bs)
     | none => some "NONE"
+  | ["lazy", h] => do
+    let bs ← (if h == "-" then some [] else Driver.Frame.unhex h)
+    match Amqp.Lazy.skim bs with
+    | .ok (a, rest) => some s!"OK {a.length} {rest.length}"
+    | .error e => some s!"ERR {showErr e}"
   | ["dec", h] => do
     let bs ← Driver.Frame.unhex h
     match decode bs with
